@@ -359,7 +359,14 @@ def main():
                      "serves_properties": [c["property_id"] for c in checks],
                      "kind_free_text": "TLA+ specifications in /verif/spec checked with TLC 1.8; Python harness in /verif/harness "
                                        "replays TLC-generated scenarios into the real code and validates recorded traces of the "
-                                       "real code against the specification"}],
+                                       "real code against the specification"},
+                    {"name": "extras (specification grown beyond the property list)", "path": "/verif/check",
+                     "serves_properties": [],
+                     "kind_free_text": "./check X01 (spec/sys/Session.tla: ephys file globbing, sync maps, reconstructor preconditions, Reader "
+                                       "life cycle), ./check X02 (spec/sys/LfpResample.tla: the LFP down-sampling loop), ./check X03 "
+                                       "(spec/sys/Programs.tla: user programs = converter runs + Reader compress/decompress + "
+                                       "reconstruction over one directory); same interface and exit codes, evidence/X0n.json; not "
+                                       "registered as checks because the property list is fixed (DESIGN.md 9.5)"}],
         "checks": checks,
         "not_applicable": na,
         "notes": "See DESIGN.md. Known findings: KNOWN_FINDINGS.txt. Seeded breakages: seeded/<id>/.",
